@@ -1121,6 +1121,8 @@ func TestVerifC03(t *testing.T) {
 	gwg.Wait()
 	wg.Wait()
 	bg.Wait()
+	// the clock (zz_verif_c03_time_test.go): alone, math/rand is seeded per connection
+	c03Timed(out, worlds[0], thorough)
 	select {
 	case err := <-errs:
 		restore()
@@ -1172,6 +1174,9 @@ func c03Replay(t *testing.T, out *vlib.Out, path string) {
 		var bg sync.WaitGroup
 		c03RealSockets(out, 20, &bg)
 		bg.Wait()
+	}
+	if err := c03TimedReplay(out, path); err != nil {
+		t.Fatal(err)
 	}
 	if len(c03Fails) == 0 {
 		fmt.Fprintln(os.Stderr, "REPLAY c03: the property held on every replayed case")
